@@ -188,6 +188,16 @@ def step (st : St) (line : String) : St × String :=
     match parseQ st b1 u1 with
     | some a => (st, unop st op a)
     | none => (st, "bad-unit")
+  | ["assert3", b1, u1, b2, u2, b3, u3] =>
+    match parseQ st b1 u1, parseQ st b2 u2, parseQ st b3 u3 with
+    | some a, some b, some e => (st, match assertEq3 st.tbl a b e with
+      | .ok => "ok" | .failed => "failed" | .qerr => "qerr")
+    | _, _, _ => (st, "bad-unit")
+  | ["assert2", b1, u1, b2, u2] =>
+    match parseQ st b1 u1, parseQ st b2 u2 with
+    | some a, some b => (st, match assertEq2 st.tbl a b with
+      | .ok => "ok" | .failed => "failed" | .qerr => "qerr")
+    | _, _ => (st, "bad-unit")
   | ["vm", op, b1, u1, b2, u2] =>
     match parseQ st b1 u1, parseQ st b2 u2 with
     | some a, some b =>
